@@ -238,7 +238,7 @@ func runWorker(w, workers int, sel []Kind, seed uint64, tier string, scale float
 			for _, t := range c.tags {
 				tg[t]++
 			}
-			if n := out.cases[k.Name]; (n <= 2 || n%997 == 0) && len(out.samples[k.Name]) < 6 && len(line) < 600 {
+			if n := out.cases[k.Name]; (n <= 2 || n%997 == 0) && len(out.samples[k.Name]) < 6 && len(line) < 2000 {
 				out.samples[k.Name] = append(out.samples[k.Name], line)
 			}
 		}
@@ -349,7 +349,7 @@ func cmdRun(args []string) {
 	fs.Parse(args)
 	sel := selectKinds(*props, *names)
 	t0 := time.Now()
-	res := &result{Seed: *seed, Tier: *tier, Scale: *scale, Kinds: map[string]*kindResult{}}
+	res := &result{Seed: *seed, Tier: *tier, Scale: *scale, Kinds: map[string]*kindResult{}, Bad: []badCase{}}
 	if len(sel) == 0 {
 		res.Failed = "no kinds selected"
 	}
@@ -365,7 +365,7 @@ func cmdRun(args []string) {
 	}
 	wg.Wait()
 	for _, k := range sel {
-		kr := &kindResult{Prop: k.Prop, Tags: map[string]int{}, Model: modelStats{KF: map[string]int{}, KFI: map[string]int{}}}
+		kr := &kindResult{Prop: k.Prop, Samples: []string{}, Tags: map[string]int{}, Model: modelStats{KF: map[string]int{}, KFI: map[string]int{}}}
 		all := map[uint64]bool{}
 		for _, o := range outs {
 			kr.Cases += o.cases[k.Name]
